@@ -1,1 +1,886 @@
-(* C19 proofs: in progress *)
+(* C19 proofs: debug evaluation (deval), the recorder (rec_all) and the report renderer *)
+From Coq Require Import List String Ascii Bool NArith ZArith Lia.
+From Yae Require Import Base.Sexp Model.Ty Gen.Generated Model.Num Model.Lexer Model.Literal Model.Cst Model.Check
+  Model.Val Model.Render Model.Builtins Model.Eval Model.Debug.
+Import ListNotations.
+Local Open Scope list_scope.
+Local Open Scope nat_scope.
+
+(* ------------------------------------------------------------------------------------------------------------ *)
+(* 1. what is recorded: computation lemmas                                                                      *)
+(* ------------------------------------------------------------------------------------------------------------ *)
+
+Lemma record_literals : forall ops orc fe rho f a t r o,
+  (match a with AStr _ | ANum _ _ | ATime _ | ABool _ => True | _ => False end) ->
+  deval ops orc fe rho (S f) a = (t, r, o) -> r = [].
+Proof.
+  intros ops orc fe rho f a t r o Ha H.
+  destruct a; try contradiction; cbn in H; unfold dret in H; inversion H; reflexivity.
+Qed.
+
+Lemma record_ident : forall ops orc fe rho f col name v,
+  assoc name rho = Some v ->
+  deval ops orc fe rho (S f) (AIdent col name) = ([], [(v, (col + 1)%Z)], OVal v).
+Proof.
+  intros ops orc fe rho f col name v H.
+  cbn [deval]. rewrite H. reflexivity.
+Qed.
+
+Lemma recording_val : forall col (m : DM val) t r v,
+  recording col m = (t, r, OVal v) -> exists r0, r = r0 ++ [(v, (col + 1)%Z)].
+Proof.
+  intros col m t r v H.
+  destruct m as [[t0 r0] o0]. destruct o0 as [x|k|k]; cbn in H; inversion H; subst.
+  exists r0. reflexivity.
+Qed.
+
+Lemma record_last : forall ops orc fe rho f a t r v col,
+  (match a with
+   | AIdent c _ | ACall c _ _ _ _ _ | ASub c _ _ _ | AMember c _ _ _ _ => c = col
+   | _ => False end) ->
+  deval ops orc fe rho f a = (t, r, OVal v) -> exists r0, r = r0 ++ [(v, (col + 1)%Z)].
+Proof.
+  intros ops orc fe rho f a t r v col Ha H.
+  destruct f as [|f].
+  - cbn in H. inversion H.
+  - destruct a; try contradiction; subst; cbn [deval] in H; eapply recording_val; exact H.
+Qed.
+
+(* ------------------------------------------------------------------------------------------------------------ *)
+(* the recorder                                                                                                 *)
+(* ------------------------------------------------------------------------------------------------------------ *)
+
+Definition cnt (col : Z) (vs : list recd) : nat := List.length (filter (fun e => Z.leb col (snd e)) vs).
+
+Lemma cnt_le : forall col vs, cnt col vs <= List.length vs.
+Proof.
+  intros col vs. unfold cnt. induction vs as [|e vs IH]; cbn; [lia|].
+  destruct (Z.leb col (snd e)); cbn; lia.
+Qed.
+
+Lemma cnt_mono : forall col vs, cnt (col + 1)%Z vs <= cnt col vs.
+Proof.
+  intros col vs. unfold cnt. induction vs as [|e vs IH]; cbn; [lia|].
+  destruct (Z.leb_spec (col + 1)%Z (snd e)); destruct (Z.leb_spec col (snd e)); cbn; lia.
+Qed.
+
+Lemma cnt_taken : forall col vs,
+  existsb (fun e => Z.eqb (snd e) col) vs = true -> cnt (col + 1)%Z vs < cnt col vs.
+Proof.
+  intros col vs. induction vs as [|e vs IH]; cbn; [discriminate|].
+  intros H. apply orb_true_iff in H.
+  fold (cnt (col + 1)%Z vs) in *. fold (cnt col vs) in *.
+  assert (Hm := cnt_mono col vs).
+  unfold cnt in *. cbn.
+  destruct H as [H|H].
+  - apply Z.eqb_eq in H.
+    destruct (Z.leb_spec (col + 1)%Z (snd e)); destruct (Z.leb_spec col (snd e)); cbn; lia.
+  - specialize (IH H).
+    destruct (Z.leb_spec (col + 1)%Z (snd e)); destruct (Z.leb_spec col (snd e)); cbn; lia.
+Qed.
+
+Lemma existsb_col_in : forall col (vs : list recd),
+  existsb (fun e => Z.eqb (snd e) col) vs = true <-> In col (map snd vs).
+Proof.
+  intros col vs. rewrite existsb_exists, in_map_iff. split.
+  - intros [x [Hin Hx]]. apply Z.eqb_eq in Hx. exists x. auto.
+  - intros [x [Hx Hin]]. exists x. split; [auto|]. apply Z.eqb_eq. auto.
+Qed.
+
+Lemma rec_one_ok : forall f vs v col,
+  cnt col vs < f ->
+  exists col', rec_one f vs v col = vs ++ [(v, col')] /\ (col <= col')%Z /\ ~ In col' (map snd vs) /\
+               (~ In col (map snd vs) -> col' = col).
+Proof.
+  induction f as [|f IH]; intros vs v col Hf; [lia|].
+  cbn [rec_one].
+  destruct (existsb (fun e => Z.eqb (snd e) col) vs) eqn:E.
+  - assert (Hlt := cnt_taken col vs E).
+    destruct (IH vs v (col + 1)%Z) as [col' [H1 [H2 [H3 H4]]]]; [lia|].
+    exists col'. split; [exact H1|]. split; [lia|]. split; [exact H3|].
+    intros Hn. exfalso. apply Hn. apply existsb_col_in. exact E.
+  - exists col. split; [reflexivity|]. split; [lia|]. split.
+    + intros Hin. apply existsb_col_in in Hin. congruence.
+    + reflexivity.
+Qed.
+
+Lemma NoDup_snoc : forall (X : Type) (l : list X) (x : X), NoDup l -> ~ In x l -> NoDup (l ++ [x]).
+Proof.
+  intros X l x Hnd. induction Hnd as [|y l Hy Hnd IH]; intros Hx; cbn.
+  - constructor; [intros []|constructor].
+  - constructor.
+    + intros Hin. apply in_app_or in Hin. destruct Hin as [Hin|[Hin|[]]]; [auto|]. subst. apply Hx. left. reflexivity.
+    + apply IH. intros Hin. apply Hx. right. exact Hin.
+Qed.
+
+Lemma rec_fold_spec : forall raw acc,
+  NoDup (map snd acc) ->
+  exists tail,
+    fold_left (fun acc e => rec_one (S (len acc)) acc (fst e) (snd e)) raw acc = acc ++ tail /\
+    map fst tail = map fst raw /\
+    Forall2 (fun e e' : recd => (snd e <= snd e')%Z) raw tail /\
+    NoDup (map snd (acc ++ tail)) /\
+    (NoDup (map snd (acc ++ raw)) -> tail = raw).
+Proof.
+  induction raw as [|e raw IH]; intros acc Hnd.
+  - exists []. cbn. rewrite app_nil_r. repeat split; auto.
+  - cbn [fold_left].
+    destruct (rec_one_ok (S (len acc)) acc (fst e) (snd e)) as [col' [H1 [H2 [H3 H4]]]].
+    { unfold len. apply Nat.lt_succ_r. apply cnt_le. }
+    unfold recd in *. rewrite H1.
+    assert (Hnd' : NoDup (map snd (acc ++ [(fst e, col')]))).
+    { rewrite map_app. cbn. apply NoDup_snoc; assumption. }
+    destruct (IH (acc ++ [(fst e, col')]) Hnd') as [tail [T1 [T2 [T3 [T4 T5]]]]].
+    exists ((fst e, col') :: tail).
+    rewrite T1. rewrite <- app_assoc. cbn [app].
+    split; [reflexivity|]. split; [cbn; rewrite T2; reflexivity|].
+    split; [constructor; [cbn; exact H2 | exact T3]|].
+    split; [rewrite <- app_assoc in T4; exact T4|].
+    intros Hall.
+    assert (Hcol : col' = snd e).
+    { apply H4. intros Hin. rewrite map_app in Hall. cbn in Hall.
+      apply NoDup_remove_2 in Hall. apply Hall. apply in_or_app. left. exact Hin. }
+    subst col'. rewrite <- surjective_pairing in *.
+    rewrite T5; [reflexivity|]. rewrite <- app_assoc. exact Hall.
+Qed.
+
+Lemma rec_all_spec : forall raw,
+  map fst (rec_all raw) = map fst raw /\
+  Forall2 (fun e e' => (snd e <= snd e')%Z) raw (rec_all raw) /\
+  NoDup (map snd (rec_all raw)) /\
+  (NoDup (map snd raw) -> rec_all raw = raw).
+Proof.
+  intros raw. unfold rec_all.
+  destruct (rec_fold_spec raw []) as [tail [T1 [T2 [T3 [T4 T5]]]]]; [constructor|].
+  unfold recd in *. rewrite T1. cbn [app] in *. repeat split; auto.
+Qed.
+
+(* ------------------------------------------------------------------------------------------------------------ *)
+(* 2. transparency: forgetting the record turns deval into eval                                                  *)
+(* ------------------------------------------------------------------------------------------------------------ *)
+
+Definition erase {X} (m : DM X) : M X := let '(t, _, o) := m in (t, o).
+
+Lemma erase_dbind : forall X Y (m : DM X) (k : X -> DM Y) (m' : M X) (k' : X -> M Y),
+  erase m = m' -> (forall x, erase (k x) = k' x) -> erase (dbind m k) = mbind m' k'.
+Proof.
+  intros X Y m k m' k' Hm Hk. destruct m as [[t r] o]. cbn in Hm. subst m'.
+  destruct o as [x|e|e]; cbn; try reflexivity.
+  specialize (Hk x). destruct (k x) as [[t' r'] o']. cbn in Hk. rewrite <- Hk. reflexivity.
+Qed.
+
+Lemma erase_dlift : forall X (m : M X), erase (dlift m) = m.
+Proof. intros X [t o]. reflexivity. Qed.
+
+Lemma erase_dret : forall X (x : X), erase (dret x) = ret x.
+Proof. reflexivity. Qed.
+
+Lemma erase_recording : forall col (m : DM val), erase (recording col m) = erase m.
+Proof.
+  intros col [[t r] o]. destruct o; cbn; try reflexivity. rewrite app_nil_r. reflexivity.
+Qed.
+
+Lemma erase_dmapM : forall X Y (f : X -> DM Y) (g : X -> M Y) l,
+  (forall x, erase (f x) = g x) -> erase (dmapM f l) = mmapM g l.
+Proof.
+  intros X Y f g l H. induction l as [|x l IH]; [reflexivity|].
+  cbn [dmapM mmapM]. apply erase_dbind; [apply H|]. intros y.
+  apply erase_dbind; [exact IH|]. intros ys. reflexivity.
+Qed.
+
+Definition thunks_agree (d : unit -> DM val) (e : unit -> M val) : Prop := erase (d tt) = e tt.
+
+Lemma lazyif_erase : forall dths ths, Forall2 thunks_agree dths ths ->
+  erase (match dths with
+         | [c; a; b] => dbind (c tt) (fun cv => dbind (d_as_bool cv) (fun cb : bool => if cb then a tt else b tt))
+         | _ => dlift (fault XOther)
+         end) =
+  match ths with
+  | [c; a; b] => mbind (c tt) (fun cv => mbind (as_bool cv) (fun cb : bool => if cb then a tt else b tt))
+  | _ => fault XOther
+  end.
+Proof.
+  intros dths ths H.
+  destruct H as [|c c' ? ? Hc H]; [reflexivity|].
+  destruct H as [|a a' ? ? Ha H]; [reflexivity|].
+  destruct H as [|b b' ? ? Hb H]; [reflexivity|].
+  destruct H as [|? ? ? ? ? H]; [|reflexivity].
+  apply erase_dbind; [exact Hc|]. intros cv.
+  apply erase_dbind; [apply erase_dlift|]. intros [|]; assumption.
+Qed.
+
+Lemma conj_false_erase : forall dths ths, Forall2 thunks_agree dths ths ->
+  erase (match dths with
+         | [a; b] => dbind (a tt) (fun av => dbind (d_as_bool av) (fun ab : bool =>
+                       if Bool.eqb ab false then dret (VBool false)
+                       else dbind (b tt) (fun bv => dbind (d_as_bool bv) (fun bb : bool => dret (VBool bb)))))
+         | _ => dlift (fault XOther)
+         end) =
+  match ths with
+  | [a; b] => mbind (a tt) (fun av => mbind (as_bool av) (fun ab : bool =>
+                if ab then mbind (b tt) (fun bv => mbind (as_bool bv) (fun bb : bool => ret (VBool bb)))
+                else ret (VBool false)))
+  | _ => fault XOther
+  end.
+Proof.
+  intros dths ths H.
+  destruct H as [|a a' ? ? Ha H]; [reflexivity|].
+  destruct H as [|b b' ? ? Hb H]; [reflexivity|].
+  destruct H as [|? ? ? ? ? H]; [|reflexivity].
+  apply erase_dbind; [exact Ha|]. intros av.
+  apply erase_dbind; [apply erase_dlift|]. intros [|]; cbn [Bool.eqb]; [|reflexivity].
+  apply erase_dbind; [exact Hb|]. intros bv.
+  apply erase_dbind; [apply erase_dlift|]. intros bb. reflexivity.
+Qed.
+
+Lemma conj_true_erase : forall dths ths, Forall2 thunks_agree dths ths ->
+  erase (match dths with
+         | [a; b] => dbind (a tt) (fun av => dbind (d_as_bool av) (fun ab : bool =>
+                       if Bool.eqb ab true then dret (VBool true)
+                       else dbind (b tt) (fun bv => dbind (d_as_bool bv) (fun bb : bool => dret (VBool bb)))))
+         | _ => dlift (fault XOther)
+         end) =
+  match ths with
+  | [a; b] => mbind (a tt) (fun av => mbind (as_bool av) (fun ab : bool =>
+                if ab then ret (VBool true)
+                else mbind (b tt) (fun bv => mbind (as_bool bv) (fun bb : bool => ret (VBool bb)))))
+  | _ => fault XOther
+  end.
+Proof.
+  intros dths ths H.
+  destruct H as [|a a' ? ? Ha H]; [reflexivity|].
+  destruct H as [|b b' ? ? Hb H]; [reflexivity|].
+  destruct H as [|? ? ? ? ? H]; [|reflexivity].
+  apply erase_dbind; [exact Ha|]. intros av.
+  apply erase_dbind; [apply erase_dlift|]. intros [|]; cbn [Bool.eqb]; [reflexivity|].
+  apply erase_dbind; [exact Hb|]. intros bv.
+  apply erase_dbind; [apply erase_dlift|]. intros bb. reflexivity.
+Qed.
+
+(* no built-in is called "lazyif" or "both" *)
+Lemma builtin_name : forall sg, sig_is_builtin sg = true ->
+  String.eqb (s_name sg) "lazyif" = false /\ String.eqb (s_name sg) "both" = false.
+Proof.
+  intros sg H. unfold sig_is_builtin in H. apply existsb_exists in H.
+  destruct H as [[[[n ps] r] lz] [Hin Hx]].
+  apply andb_true_iff in Hx. destruct Hx as [Hx _]. apply andb_true_iff in Hx. destruct Hx as [Hx _].
+  apply String.eqb_eq in Hx. subst.
+  assert (Hall : forallb (fun x : string * list ty * ty * bool =>
+                            let '(n, _, _, _) := x in
+                            negb (String.eqb n "lazyif") && negb (String.eqb n "both")) builtin_sigs = true)
+    by (vm_compute; reflexivity).
+  rewrite forallb_forall in Hall. specialize (Hall _ Hin). cbn in Hall.
+  apply andb_true_iff in Hall. destruct Hall as [H1 H2].
+  apply negb_true_iff in H1. apply negb_true_iff in H2. cbn [s_name]. auto.
+Qed.
+
+Lemma lazy_erase : forall sg dths ths, Forall2 thunks_agree dths ths ->
+  erase (d_apply_lazy sg dths) = (if sig_is_builtin sg then apply_lazy sg else host_lazy (s_name sg)) ths.
+Proof.
+  intros sg dths ths H. unfold d_apply_lazy. cbv zeta.
+  destruct (sig_is_builtin sg) eqn:Eb.
+  - destruct (builtin_name sg Eb) as [N1 N2].
+    assert (Hother : erase (dlift (fault XOther) : DM val) = host_lazy (s_name sg) ths).
+    { unfold host_lazy. rewrite N1, N2. reflexivity. }
+    unfold apply_lazy.
+    destruct (classify (s_name sg) (s_params sg)) as [b|]; [|exact Hother].
+    destruct b; try exact Hother.
+    + apply lazyif_erase; exact H.
+    + apply conj_false_erase; exact H.
+    + apply conj_true_erase; exact H.
+  - unfold host_lazy.
+    destruct (String.eqb (s_name sg) "lazyif") eqn:E1.
+    + apply String.eqb_eq in E1. rewrite E1.
+      apply erase_dbind; [reflexivity|]. intros _. apply lazyif_erase; exact H.
+    + destruct (String.eqb (s_name sg) "both") eqn:E2.
+      * apply String.eqb_eq in E2. rewrite E2.
+        apply erase_dbind; [reflexivity|]. intros _. apply conj_false_erase; exact H.
+      * reflexivity.
+Qed.
+
+Lemma thunks_map : forall (F : aexpr -> DM val) (G : aexpr -> M val) args,
+  (forall a, erase (F a) = G a) ->
+  Forall2 thunks_agree (map (fun x (_ : unit) => F x) args) (map (fun x (_ : unit) => G x) args).
+Proof.
+  intros F G args H. induction args as [|x args IH]; cbn; constructor; [apply H|exact IH].
+Qed.
+
+Lemma erase_deval : forall ops orc fe rho f a,
+  erase (deval ops orc fe rho f a) = eval ops orc fe rho f a.
+Proof.
+  intros ops orc fe rho f. induction f as [|f IH]; intros a; [reflexivity|].
+  assert (Hcall : forall sg args,
+    erase (if s_lazy sg then d_apply_lazy sg (map (fun x (_ : unit) => deval ops orc fe rho f x) args)
+           else dbind (dmapM (deval ops orc fe rho f) args) (fun vs => dlift (apply_strict ops orc sg vs))) =
+    (if s_lazy sg
+     then (if sig_is_builtin sg then apply_lazy sg else host_lazy (s_name sg))
+            (map (fun x (_ : unit) => eval ops orc fe rho f x) args)
+     else mbind (mmapM (eval ops orc fe rho f) args) (fun vs => apply_strict ops orc sg vs))).
+  { intros sg args. destruct (s_lazy sg).
+    - apply lazy_erase. apply thunks_map. exact IH.
+    - apply erase_dbind; [apply erase_dmapM; exact IH|]. intros vs. apply erase_dlift. }
+  destruct a; cbn [deval eval]; try reflexivity.
+  - (* AList *)
+    destruct es as [|e es]; [reflexivity|].
+    apply erase_dbind; [apply erase_dmapM; exact IH|]. intros vs. reflexivity.
+  - (* AMap *)
+    destruct kvs as [|kv kvs]; [reflexivity|].
+    apply erase_dbind; [|intros vs; reflexivity].
+    assert (Hgo : forall l acc,
+      erase ((fix go (kvs : list (aexpr * aexpr)) (acc : list (list N * val)) : DM (list (list N * val)) :=
+                match kvs with
+                | [] => dret acc
+                | (k, v) :: r =>
+                    dbind (deval ops orc fe rho f k) (fun kv => dbind (dlift (key_of ops kv)) (fun kk =>
+                    dbind (deval ops orc fe rho f v) (fun vv => go r (kput kk vv acc))))
+                end) l acc) =
+      (fix go (kvs : list (aexpr * aexpr)) (acc : list (list N * val)) : M (list (list N * val)) :=
+                match kvs with
+                | [] => ret acc
+                | (k, v) :: r =>
+                    mbind (eval ops orc fe rho f k) (fun kv => mbind (key_of ops kv) (fun kk =>
+                    mbind (eval ops orc fe rho f v) (fun vv => go r (kput kk vv acc))))
+                end) l acc).
+    { intros l. induction l as [|[k v] l IHl]; intros acc; [reflexivity|].
+      apply erase_dbind; [apply IH|]. intros kv'.
+      apply erase_dbind; [apply erase_dlift|]. intros kk.
+      apply erase_dbind; [apply IH|]. intros vv. apply IHl. }
+    apply (Hgo (kv :: kvs) []).
+  - (* AObj *)
+    destruct fs as [|nf fs]; [reflexivity|].
+    apply erase_dbind; [apply erase_dmapM; intros x; apply IH|]. intros vs. reflexivity.
+  - (* AIdent *)
+    rewrite erase_recording. destruct (assoc name rho); reflexivity.
+  - (* ACall *)
+    rewrite erase_recording.
+    destruct (String.eqb resolved ""%string).
+    + apply erase_dbind; [apply IH|]. intros fv.
+      destruct fv; try reflexivity. destruct t; try reflexivity. apply Hcall.
+    + destruct (lookup_fn fe resolved index); [apply Hcall|reflexivity].
+  - (* ASub *)
+    rewrite erase_recording.
+    apply erase_dbind; [apply IH|]. intros x. destruct x; try reflexivity.
+    + apply erase_dbind; [apply IH|]. intros iv.
+      apply erase_dbind; [apply erase_dlift|]. intros n.
+      destruct (_ || _); [reflexivity|]. destruct (nth_error _ _); reflexivity.
+    + apply erase_dbind; [apply IH|]. intros kv.
+      apply erase_dbind; [apply erase_dlift|]. intros kk.
+      destruct (kget kk kvs); reflexivity.
+  - (* AMember *)
+    rewrite erase_recording.
+    apply erase_dbind; [apply IH|]. intros ov. destruct ov; try reflexivity.
+    destruct (obj_load _ _ _ _); reflexivity.
+Qed.
+
+Lemma transparent : forall ops orc fe rho f a t r o,
+  deval ops orc fe rho f a = (t, r, o) -> eval ops orc fe rho f a = (t, o).
+Proof.
+  intros ops orc fe rho f a t r o H. rewrite <- erase_deval. rewrite H. reflexivity.
+Qed.
+
+(* ------------------------------------------------------------------------------------------------------------ *)
+(* 3. a lazy call records only what it evaluated                                                                *)
+(* ------------------------------------------------------------------------------------------------------------ *)
+
+Lemma record_if_unselected : forall ops orc fe rho f col key idx fty callee c a b tc rc,
+  (exists sg, lookup_fn fe key idx = Some sg /\ sig_is_builtin sg = true /\ s_lazy sg = true /\
+              classify (s_name sg) (s_params sg) = Some BIf) -> key <> ""%string ->
+  deval ops orc fe rho f c = (tc, rc, OVal (VBool true)) ->
+  forall t r o, deval ops orc fe rho (S f) (ACall col key idx fty callee [c; a; b]) = (t, r, o) ->
+  exists ta ra oa, deval ops orc fe rho f a = (ta, ra, oa) /\ t = tc ++ ta /\
+    r = rc ++ ra ++ (match oa with OVal v => [(v, (col + 1)%Z)] | _ => [] end).
+Proof.
+  intros ops orc fe rho f col key idx fty callee c a b tc rc [sg [Hl [Hb [Hz Hc]]]] Hkey Hcond t r o H.
+  cbn [deval] in H.
+  apply String.eqb_neq in Hkey. rewrite Hkey, Hl, Hz in H. cbn [map] in H.
+  unfold d_apply_lazy in H. cbv zeta in H. rewrite Hb, Hc in H.
+  rewrite Hcond in H.
+  destruct (deval ops orc fe rho f a) as [[ta ra] oa].
+  exists ta, ra, oa. split; [reflexivity|].
+  destruct oa as [x|k|k]; cbn in H; inversion H; subst; clear H.
+  - rewrite app_nil_r. rewrite <- app_assoc. auto.
+  - rewrite app_nil_r. auto.
+  - rewrite app_nil_r. auto.
+Qed.
+
+(* ------------------------------------------------------------------------------------------------------------ *)
+(* 4. the renderer                                                                                              *)
+(* ------------------------------------------------------------------------------------------------------------ *)
+
+Definition nonl (l : list N) : Prop := ~ In 10%N l.
+
+Definition drop_lf (r : list N) : list N := match r with 10%N :: r' => r' | _ => r end.
+
+Lemma split_lines_cons : forall c r cur,
+  split_lines (c :: r) cur =
+  if N.eqb c 13 then rev cur :: split_lines (drop_lf r) []
+  else if N.eqb c 10 then rev cur :: split_lines r []
+  else split_lines r (c :: cur).
+Proof.
+  intros c r cur.
+  destruct c as [|p]; [reflexivity|].
+  do 4 (try (destruct p as [p|p|]; try reflexivity)).
+  destruct r as [|d r]; [reflexivity|].
+  destruct d as [|q]; [reflexivity|].
+  do 4 (try (destruct q as [q|q|]; try reflexivity)).
+Qed.
+
+Lemma split_lines_nonempty : forall l cur, split_lines l cur <> [].
+Proof.
+  induction l as [|c r IH]; intros cur; [discriminate|].
+  rewrite split_lines_cons. destruct (N.eqb c 13); [discriminate|]. destruct (N.eqb c 10); [discriminate|]. apply IH.
+Qed.
+
+Lemma split_lines_strong : forall n l cur, List.length l <= n -> nonl cur -> Forall nonl (split_lines l cur).
+Proof.
+  induction n as [|n IH]; intros l cur Hn Hc.
+  - destruct l; [|cbn in Hn; lia]. cbn. constructor; [|constructor]. unfold nonl. rewrite <- in_rev. exact Hc.
+  - destruct l as [|c r].
+    + cbn. constructor; [|constructor]. unfold nonl. rewrite <- in_rev. exact Hc.
+    + cbn in Hn. rewrite split_lines_cons.
+      assert (Hrev : nonl (rev cur)) by (unfold nonl; rewrite <- in_rev; exact Hc).
+      assert (Hnil : nonl []) by (intros []).
+      destruct (N.eqb c 13) eqn:E13.
+      * constructor; [exact Hrev|]. apply IH; [|exact Hnil].
+        unfold drop_lf. destruct r as [|d r']; [cbn; lia|].
+        destruct d as [|q]; [cbn in *; lia|].
+        do 4 (try (destruct q as [q|q|]; try (cbn in *; lia))).
+      * destruct (N.eqb c 10) eqn:E10.
+        -- constructor; [exact Hrev|]. apply IH; [lia|exact Hnil].
+        -- apply IH; [lia|]. intros [Hin|Hin]; [|exact (Hc Hin)]. subst c. discriminate.
+Qed.
+
+Lemma split_lines_nonl : forall l, Forall nonl (split_lines l []).
+Proof. intros l. apply (split_lines_strong (List.length l)); [lia|intros []]. Qed.
+
+Lemma split_lines_id : forall l cur, ~ In 10%N l -> ~ In 13%N l -> split_lines l cur = [rev cur ++ l].
+Proof.
+  induction l as [|c r IH]; intros cur H10 H13.
+  - cbn. rewrite app_nil_r. reflexivity.
+  - rewrite split_lines_cons.
+    destruct (N.eqb_spec c 13) as [E|E]; [exfalso; apply H13; left; auto|].
+    destruct (N.eqb_spec c 10) as [E'|E']; [exfalso; apply H10; left; auto|].
+    rewrite IH.
+    + cbn [rev]. rewrite <- app_assoc. reflexivity.
+    + intros Hin. apply H10. right. exact Hin.
+    + intros Hin. apply H13. right. exact Hin.
+Qed.
+
+Lemma split_lines_single : forall l cur, List.length (split_lines l cur) = 1 -> ~ In 10%N l.
+Proof.
+  induction l as [|c r IH]; intros cur H; [intros []|].
+  rewrite split_lines_cons in H.
+  destruct (N.eqb c 13) eqn:E13.
+  { cbn in H. pose proof (split_lines_nonempty (drop_lf r) []) as Hne.
+    destruct (split_lines (drop_lf r) []); [congruence|cbn in H; lia]. }
+  destruct (N.eqb_spec c 10) as [E10|E10].
+  { cbn in H. pose proof (split_lines_nonempty r []) as Hne.
+    destruct (split_lines r []); [congruence|cbn in H; lia]. }
+  intros [Hin|Hin]; [congruence|]. exact (IH _ H Hin).
+Qed.
+
+(* ---- place ---- *)
+
+Lemma in_firstn : forall (X : Type) n (l : list X) x, In x (firstn n l) -> In x l.
+Proof. intros X n l x H. rewrite <- (firstn_skipn n l). apply in_or_app. left. exact H. Qed.
+
+Lemma in_skipn : forall (X : Type) n (l : list X) x, In x (skipn n l) -> In x l.
+Proof. intros X n l x H. rewrite <- (firstn_skipn n l). apply in_or_app. right. exact H. Qed.
+
+Lemma place_in : forall t s c x, In x (place t s c) -> In x t \/ x = 32%N \/ In x s.
+Proof.
+  intros t s c x H. unfold place in H.
+  assert (Hline : forall y, In y (t ++ repeat 32%N (c - len t)) -> In y t \/ y = 32%N).
+  { intros y Hy. apply in_app_or in Hy. destruct Hy as [Hy|Hy]; [auto|]. right. eapply repeat_spec. exact Hy. }
+  destruct (Nat.ltb _ _).
+  - apply in_app_or in H. destruct H as [H|H]; [|auto].
+    apply in_firstn in H. destruct (Hline _ H); auto.
+  - apply in_app_or in H. destruct H as [H|H].
+    + apply in_firstn in H. destruct (Hline _ H); auto.
+    + apply in_app_or in H. destruct H as [H|H]; [auto|].
+      apply in_skipn in H. destruct (Hline _ H); auto.
+Qed.
+
+Lemma place_nonl : forall t s c, nonl t -> nonl s -> nonl (place t s c).
+Proof.
+  intros t s c Ht Hs H. apply place_in in H. destruct H as [H|[H|H]]; [auto|discriminate|auto].
+Qed.
+
+(* [tv] sits on [t] from (1-based) column [col] on *)
+Definition holds (t : list N) (col : nat) (tv : list N) : Prop :=
+  exists pre post, t = pre ++ tv ++ post /\ List.length pre = col - 1.
+
+Lemma place_holds : forall t s c, holds (place t s c) c s.
+Proof.
+  intros t s c. unfold place, len.
+  set (line := t ++ repeat 32%N (c - List.length t)).
+  assert (Hlen : c <= List.length line).
+  { unfold line. rewrite app_length, repeat_length. lia. }
+  assert (Hpre : List.length (firstn (c - 1) line) = c - 1) by (rewrite firstn_length; lia).
+  destruct (Nat.ltb _ _).
+  - exists (firstn (c - 1) line), []. rewrite app_nil_r. auto.
+  - exists (firstn (c - 1) line), (skipn (c - 1 + List.length s) line). auto.
+Qed.
+
+Lemma place_keeps : forall t s c col tv,
+  holds t col tv -> 1 <= c -> c <= col - 1 -> c - 1 + List.length s <= col - 1 -> holds (place t s c) col tv.
+Proof.
+  intros t s c col tv [pre [post [Ht Hpre]]] Hc Hc' Hstop. unfold place, len.
+  assert (Hlen : List.length t = List.length pre + List.length tv + List.length post).
+  { rewrite Ht. rewrite !app_length. lia. }
+  replace (c - List.length t) with 0 by lia. cbn [repeat]. rewrite app_nil_r.
+  destruct (Nat.ltb_spec (List.length t) (c - 1 + List.length s)) as [Hlt|Hge]; [lia|].
+  exists (firstn (c - 1) pre ++ s ++ skipn (c - 1 + List.length s) pre), post. split.
+  - rewrite Ht.
+    rewrite firstn_app. replace (c - 1 - List.length pre) with 0 by lia. cbn [firstn]. rewrite app_nil_r.
+    rewrite skipn_app. replace (c - 1 + List.length s - List.length pre) with 0 by lia. cbn [skipn].
+    rewrite <- !app_assoc. reflexivity.
+  - rewrite !app_length, firstn_length, skipn_length. lia.
+Qed.
+
+(* ---- try_lines ---- *)
+
+Definition step (str : list N) (start endc : Z) (single : bool) (l l' : line) : Prop :=
+  l' = l \/
+  (fst l' = place (fst l) [124%N] (Z.to_nat start) /\ (snd l' = (start + 1)%Z \/ snd l' = snd l)) \/
+  (single = true /\ (endc < snd l)%Z /\ l' = (place (fst l) str (Z.to_nat start), start)).
+
+Definition placed (str : list N) (start : Z) (l' : line) : Prop :=
+  exists t, l' = (place t str (Z.to_nat start), start).
+
+Lemma Forall2_step_refl : forall str start endc single r, Forall2 (step str start endc single) r r.
+Proof. intros. induction r; constructor; [left; reflexivity|assumption]. Qed.
+
+Lemma try_lines_step : forall ls j str start endc single ls' ok,
+  j <> 0 -> try_lines ls j str start endc single = (ls', ok) ->
+  Forall2 (step str start endc single) ls ls' /\ (ok = true -> Exists (placed str start) ls').
+Proof.
+  intros ls. induction ls as [|[txt sc] r IH]; intros j str start endc single ls' ok Hj H.
+  - cbn in H. inversion H; subst. split; [constructor|discriminate].
+  - cbn [try_lines] in H.
+    destruct (Nat.eqb_spec j 0) as [E|_]; [contradiction|].
+    destruct (single && Z.ltb endc sc) eqn:Es.
+    + inversion H; subst; clear H. apply andb_true_iff in Es. destruct Es as [Es1 Es2].
+      apply Z.ltb_lt in Es2. split.
+      * constructor; [|apply Forall2_step_refl]. right. right. auto.
+      * intros _. constructor. exists txt. reflexivity.
+    + destruct (try_lines r (S j) str start endc single) as [r' ok'] eqn:Er.
+      inversion H; subst; clear H.
+      destruct (IH (S j) str start endc single r' ok) as [IH1 IH2]; [lia|exact Er|]. split.
+      * constructor; [|exact IH1]. right. left. cbn [fst snd]. split; [reflexivity|].
+        destruct (Nat.ltb 1 j); auto.
+      * intros Hok. apply Exists_cons_tl. apply IH2. exact Hok.
+Qed.
+
+Definition new_lines (start : Z) (strs : list (list N)) : list line :=
+  map (fun s => (place [] s (Z.to_nat start), start)) strs.
+
+Lemma render_value_spec : forall ops src s0 rest e b,
+  exists rest' extra,
+    render_value ops ((src, s0) :: rest) e b = (src, s0) :: rest' ++ extra /\
+    ((rest' = rest /\ extra = [] /\ ((snd e < 1)%Z \/ b = true)) \/
+     ((1 <= snd e)%Z /\ b = false /\
+      let str := runes_of_bytes (render ops (fst e)) in
+      let strs := split_lines str [] in
+      let single := Nat.eqb (len strs) 1 in
+      let endc := (snd e + Z.of_nat (len str))%Z in
+      Forall2 (step str (snd e) endc single) rest rest' /\
+      ((extra = [] /\ Exists (placed str (snd e)) rest') \/ extra = new_lines (snd e) strs))).
+Proof.
+  intros ops src s0 rest e b. unfold render_value.
+  destruct (Z.ltb_spec (snd e) 1) as [Hlt|Hge].
+  { exists rest, []. rewrite app_nil_r. split; [reflexivity|]. left. auto. }
+  destruct b.
+  { exists rest, []. rewrite app_nil_r. split; [reflexivity|]. left. auto. }
+  cbv zeta. cbn [try_lines Nat.eqb].
+  set (str := runes_of_bytes (render ops (fst e))).
+  destruct (try_lines rest 1 str (snd e) (snd e + Z.of_nat (len str)) (Nat.eqb (len (split_lines str [])) 1))
+    as [r' ok] eqn:Er.
+  apply try_lines_step in Er; [|lia]. destruct Er as [E1 E2].
+  destruct ok.
+  - exists r', []. rewrite app_nil_r. split; [reflexivity|]. right. repeat split; auto.
+  - exists r', (new_lines (snd e) (split_lines str [])). split; [reflexivity|]. right. repeat split; auto.
+Qed.
+
+(* ---- joining the lines ---- *)
+
+Fixpoint joinl (l : list line) : list N :=
+  match l with
+  | [] => []
+  | [(t, _)] => t
+  | (t, _) :: r => t ++ [10%N] ++ joinl r
+  end.
+
+Lemma report_joinl : forall ops src vs,
+  report ops src vs = joinl (render_values ops [(src, 0%Z); ([], 0%Z)] (sort_desc vs)).
+Proof. reflexivity. Qed.
+
+Lemma joinl_cons : forall x rest, rest <> [] -> joinl (x :: rest) = fst x ++ 10%N :: joinl rest.
+Proof. intros [t s] rest H. destruct rest; [contradiction|reflexivity]. Qed.
+
+Lemma joinl_find : forall a x l b, exists before after,
+  joinl (x :: a ++ l :: b) = before ++ 10%N :: fst l ++ after /\ (after = [] \/ hd 0%N after = 10%N).
+Proof.
+  induction a as [|y a IH]; intros x l b.
+  - cbn [app]. rewrite joinl_cons by discriminate.
+    destruct b as [|z b].
+    + exists (fst x), []. destruct l as [t s]. cbn. rewrite app_nil_r. auto.
+    + exists (fst x), (10%N :: joinl (z :: b)). rewrite joinl_cons by discriminate. auto.
+  - cbn [app]. rewrite joinl_cons by discriminate.
+    destruct (IH y l b) as [before [after [H1 H2]]].
+    exists (fst x ++ 10%N :: before), after. rewrite H1. rewrite <- app_assoc. auto.
+Qed.
+
+(* ---- first line ---- *)
+
+Definition headed (src : list N) (ls : list line) : Prop :=
+  exists s0 rest, ls = (src, s0) :: rest /\ rest <> [].
+
+Lemma render_value_headed : forall ops src ls e b, headed src ls -> headed src (render_value ops ls e b).
+Proof.
+  intros ops src ls e b [s0 [rest [Hls Hne]]]. subst ls.
+  destruct (render_value_spec ops src s0 rest e b) as [rest' [extra [Heq Hcase]]].
+  rewrite Heq. exists s0, (rest' ++ extra). split; [reflexivity|].
+  destruct Hcase as [[H1 _]|[_ [_ H]]].
+  - subst. destruct rest; [contradiction|discriminate].
+  - cbv zeta in H. destruct H as [H _]. destruct H; [contradiction|discriminate].
+Qed.
+
+Lemma render_values_headed : forall ops src vs ls, headed src ls -> headed src (render_values ops ls vs).
+Proof.
+  intros ops src vs. induction vs as [|e r IH]; intros ls H; [exact H|].
+  cbn [render_values]. apply IH. apply render_value_headed. exact H.
+Qed.
+
+Lemma first_line : forall ops src vs,
+  ~ In 10%N src -> exists rest, report ops src vs = src ++ 10%N :: rest.
+Proof.
+  intros ops src vs _. rewrite report_joinl.
+  destruct (render_values_headed ops src (sort_desc vs) [(src, 0%Z); ([], 0%Z)]) as [s0 [rest [H Hne]]].
+  { exists 0%Z, [([], 0%Z)]. split; [reflexivity|discriminate]. }
+  rewrite H. rewrite joinl_cons by exact Hne. cbn [fst]. eauto.
+Qed.
+
+(* ---- every value stays visible ---- *)
+
+Definition lnonl (l : line) : Prop := nonl (fst l).
+
+Definition good (col : Z) (tv : list N) (l : line) : Prop :=
+  (snd l <= col)%Z /\ holds (fst l) (Z.to_nat col) tv.
+
+Lemma step_nonl : forall str start endc single l l',
+  (single = true -> nonl str) -> step str start endc single l l' -> lnonl l -> lnonl l'.
+Proof.
+  intros str start endc single l l' Hs Hstep Hl. unfold lnonl in *.
+  destruct Hstep as [H|[[H _]|[H1 [_ H]]]].
+  - subst. exact Hl.
+  - rewrite H. apply place_nonl; [exact Hl|]. intros [E|[]]. discriminate.
+  - subst l'. cbn [fst]. apply place_nonl; auto.
+Qed.
+
+Lemma step_good : forall col tv str start endc single l l',
+  (1 <= start < col)%Z -> endc = (start + Z.of_nat (List.length str))%Z ->
+  step str start endc single l l' -> good col tv l -> good col tv l'.
+Proof.
+  intros col tv str start endc single l l' Hstart Hend Hstep [Hsc Hh]. unfold good.
+  destruct Hstep as [H|[[H1 H2]|[_ [H1 H2]]]].
+  - subst. auto.
+  - split; [destruct H2 as [H2|H2]; rewrite H2; lia|].
+    rewrite H1. apply place_keeps; [exact Hh|lia|lia|cbn; lia].
+  - subst l'. cbn [fst snd]. split; [lia|].
+    apply place_keeps; [exact Hh|lia|lia|lia].
+Qed.
+
+Definition inv1 (src : list N) (ls : list line) : Prop :=
+  exists s0 rest, ls = (src, s0) :: rest /\ Forall lnonl rest.
+
+Definition inv2 (src : list N) (col : Z) (tv : list N) (ls : list line) : Prop :=
+  exists s0 rest, ls = (src, s0) :: rest /\ Forall lnonl rest /\ Exists (good col tv) rest.
+
+Lemma Forall2_Forall_step : forall (P : line -> Prop) (R : line -> line -> Prop) l l',
+  (forall x y, R x y -> P x -> P y) -> Forall2 R l l' -> Forall P l -> Forall P l'.
+Proof.
+  intros P R l l' HR H. induction H as [|x y l l' Hxy H IH]; intros HP; [constructor|].
+  inversion HP; subst. constructor; [eapply HR; eauto|auto].
+Qed.
+
+Lemma Forall2_Exists_step : forall (P : line -> Prop) (R : line -> line -> Prop) l l',
+  (forall x y, R x y -> P x -> P y) -> Forall2 R l l' -> Exists P l -> Exists P l'.
+Proof.
+  intros P R l l' HR H. induction H as [|x y l l' Hxy H IH]; intros HP; [inversion HP|].
+  inversion HP; subst; [apply Exists_cons_hd; eapply HR; eauto|apply Exists_cons_tl; auto].
+Qed.
+
+Lemma single_nonl : forall str, Nat.eqb (len (split_lines str [])) 1 = true -> nonl str.
+Proof.
+  intros str H. apply Nat.eqb_eq in H. unfold len in H. exact (split_lines_single _ _ H).
+Qed.
+
+Lemma new_lines_nonl : forall start str, Forall lnonl (new_lines start (split_lines str [])).
+Proof.
+  intros start str. unfold new_lines. apply Forall_forall. intros l Hin.
+  apply in_map_iff in Hin. destruct Hin as [s [Hl Hs]]. subst l. unfold lnonl. cbn [fst].
+  apply place_nonl; [intros []|].
+  pose proof (split_lines_nonl str) as Hall. rewrite Forall_forall in Hall. apply Hall. exact Hs.
+Qed.
+
+(* the line invariant survives any value *)
+Lemma render_value_inv1 : forall ops src ls e b, inv1 src ls -> inv1 src (render_value ops ls e b).
+Proof.
+  intros ops src ls e b [s0 [rest [Hls Hnl]]]. subst ls.
+  destruct (render_value_spec ops src s0 rest e b) as [rest' [extra [Heq Hcase]]].
+  rewrite Heq. exists s0, (rest' ++ extra). split; [reflexivity|].
+  destruct Hcase as [[H1 [H2 _]]|[_ [_ H]]].
+  - subst. rewrite app_nil_r. exact Hnl.
+  - cbv zeta in H. destruct H as [Hstep Hextra].
+    apply Forall_app. split.
+    + eapply Forall2_Forall_step; [|exact Hstep|exact Hnl].
+      intros x y Hxy Hx. eapply step_nonl; [|exact Hxy|exact Hx]. apply single_nonl.
+    + destruct Hextra as [[Hextra _]|Hextra]; subst extra; [constructor|apply new_lines_nonl].
+Qed.
+
+(* a value at a smaller column leaves [tv] where it is *)
+Lemma render_value_inv2 : forall ops src col tv ls e b,
+  (snd e < col)%Z -> inv2 src col tv ls -> inv2 src col tv (render_value ops ls e b).
+Proof.
+  intros ops src col tv ls e b Hlt [s0 [rest [Hls [Hnl Hgood]]]].
+  destruct (render_value_inv1 ops src ls e b) as [s0' [rest2 [Heq2 Hnl2]]].
+  { exists s0, rest. auto. }
+  subst ls.
+  destruct (render_value_spec ops src s0 rest e b) as [rest' [extra [Heq Hcase]]].
+  rewrite Heq in Heq2. inversion Heq2; subst s0' rest2. rewrite Heq.
+  exists s0, (rest' ++ extra). split; [reflexivity|]. split; [exact Hnl2|].
+  apply Exists_app. left.
+  destruct Hcase as [[H1 _]|[Hge [_ H]]].
+  - subst. exact Hgood.
+  - cbv zeta in H. destruct H as [Hstep _].
+    eapply Forall2_Exists_step; [|exact Hstep|exact Hgood].
+    intros x y Hxy Hx. eapply step_good; [|reflexivity|exact Hxy|exact Hx]. lia.
+Qed.
+
+(* the value itself is put on some line *)
+Lemma render_value_self : forall ops src ls v col,
+  (1 <= col)%Z ->
+  let txt := runes_of_bytes (render ops v) in
+  ~ In 10%N txt -> ~ In 13%N txt ->
+  inv1 src ls -> inv2 src col txt (render_value ops ls (v, col) false).
+Proof.
+  intros ops src ls v col Hcol txt H10 H13 Hinv.
+  destruct (render_value_inv1 ops src ls (v, col) false Hinv) as [s0' [rest2 [Heq2 Hnl2]]].
+  destruct Hinv as [s0 [rest [Hls Hnl]]]. subst ls.
+  destruct (render_value_spec ops src s0 rest (v, col) false) as [rest' [extra [Heq Hcase]]].
+  rewrite Heq in Heq2. inversion Heq2; subst s0' rest2. rewrite Heq.
+  exists s0, (rest' ++ extra). split; [reflexivity|]. split; [exact Hnl2|].
+  apply Exists_app.
+  destruct Hcase as [[_ [_ [H|H]]]|[_ [_ H]]]; [cbn in H; lia|discriminate|].
+  cbv zeta in H. cbn [fst snd] in H. fold txt in H. destruct H as [_ [[_ Hp]|Hextra]].
+  - left. eapply Exists_impl; [|exact Hp]. intros l' [t Hl']. subst l'. split; [cbn; lia|].
+    cbn [fst]. apply place_holds.
+  - right. subst extra. rewrite (split_lines_id txt [] H10 H13). cbn [rev app new_lines map].
+    apply Exists_cons_hd. split; [cbn; lia|]. cbn [fst]. apply place_holds.
+Qed.
+
+Lemma render_values_inv2 : forall ops src col tv l ls,
+  Forall (fun e : recd => (snd e < col)%Z) l -> inv2 src col tv ls -> inv2 src col tv (render_values ops ls l).
+Proof.
+  intros ops src col tv l. induction l as [|e r IH]; intros ls Hall H; [exact H|].
+  inversion Hall; subst. cbn [render_values]. apply IH; [assumption|].
+  apply render_value_inv2; assumption.
+Qed.
+
+(* ---- the sort ---- *)
+
+Fixpoint sdesc (l : list recd) : Prop :=
+  match l with
+  | [] => True
+  | x :: r => Forall (fun y : recd => (snd y < snd x)%Z) r /\ sdesc r
+  end.
+
+Lemma insert_desc_in : forall e l x, In x (insert_desc e l) <-> x = e \/ In x l.
+Proof.
+  intros e l x. induction l as [|y l IH]; cbn.
+  - intuition auto.
+  - destruct (Z.leb (snd y) (snd e)); cbn; [intuition auto|]. rewrite IH. intuition auto.
+Qed.
+
+Lemma insert_desc_sdesc : forall e l, sdesc l -> ~ In (snd e) (map snd l) -> sdesc (insert_desc e l).
+Proof.
+  intros e l. induction l as [|y l IH]; intros Hs Hn.
+  - cbn. auto.
+  - cbn [insert_desc]. cbn in Hs. destruct Hs as [Hy Hs]. cbn in Hn.
+    destruct (Z.leb_spec (snd y) (snd e)) as [Hle|Hgt].
+    + assert (Hlt : (snd y < snd e)%Z) by (assert (snd y <> snd e) by tauto; lia).
+      cbn. split; [|split; assumption].
+      constructor; [exact Hlt|]. eapply Forall_impl; [|exact Hy]. cbn. intros a Ha. lia.
+    + cbn. split.
+      * apply Forall_forall. intros a Ha. apply insert_desc_in in Ha. destruct Ha as [Ha|Ha]; [subst; exact Hgt|].
+        rewrite Forall_forall in Hy. apply Hy. exact Ha.
+      * apply IH; [exact Hs|tauto].
+Qed.
+
+Lemma sort_desc_in : forall l x, In x (sort_desc l) <-> In x l.
+Proof.
+  intros l x. induction l as [|e l IH]; cbn; [tauto|].
+  fold (sort_desc l). rewrite insert_desc_in, IH. intuition auto.
+Qed.
+
+Lemma sort_desc_sdesc : forall l, NoDup (map snd l) -> sdesc (sort_desc l).
+Proof.
+  induction l as [|e l IH]; intros Hnd; [exact I|].
+  cbn in Hnd. inversion Hnd as [|? ? Hn Hnd']; subst.
+  cbn. fold (sort_desc l). apply insert_desc_sdesc; [apply IH; exact Hnd'|].
+  intros Hin. apply Hn. apply in_map_iff in Hin. destruct Hin as [x [Hx Hin]].
+  apply (proj1 (sort_desc_in _ _)) in Hin. apply in_map_iff. exists x. auto.
+Qed.
+
+Lemma render_values_sdesc : forall ops src v col l ls,
+  (1 <= col)%Z ->
+  let txt := runes_of_bytes (render ops v) in
+  ~ In 10%N txt -> ~ In 13%N txt ->
+  sdesc l -> In (v, col) l -> inv1 src ls -> inv2 src col txt (render_values ops ls l).
+Proof.
+  intros ops src v col l. induction l as [|e r IH]; intros ls Hcol txt H10 H13 Hs Hin Hinv; [destruct Hin|].
+  cbn [render_values]. cbn in Hs. destruct Hs as [Hall Hs].
+  assert (Hnext : match r with e2 :: _ => Z.eqb (snd e2) (snd e) | [] => false end = false).
+  { destruct r as [|e2 r']; [reflexivity|]. inversion Hall; subst. apply Z.eqb_neq. lia. }
+  rewrite Hnext.
+  destruct Hin as [He|Hin].
+  - subst e. apply render_values_inv2; [exact Hall|]. apply render_value_self; assumption.
+  - apply IH; try assumption. apply render_value_inv1. exact Hinv.
+Qed.
+
+Lemma every_value : forall ops src vs v col,
+  ~ In 10%N src -> NoDup (map snd vs) -> In (v, col) vs -> (1 <= col)%Z ->
+  let txt := runes_of_bytes (render ops v) in
+  ~ In 10%N txt -> ~ In 13%N txt -> txt <> [] ->
+  exists before line after,
+    report ops src vs = before ++ 10%N :: line ++ after /\
+    (after = [] \/ hd 0%N after = 10%N) /\ ~ In 10%N line /\
+    firstn (len txt) (skipn (Z.to_nat col - 1) line) = txt.
+Proof.
+  intros ops src vs v col _ Hnd Hin Hcol txt H10 H13 _.
+  rewrite report_joinl.
+  destruct (render_values_sdesc ops src v col (sort_desc vs) [(src, 0%Z); ([], 0%Z)] Hcol H10 H13)
+    as [s0 [rest [Heq [Hnl Hgood]]]].
+  - apply sort_desc_sdesc. exact Hnd.
+  - apply sort_desc_in. exact Hin.
+  - exists 0%Z, [([], 0%Z)]. split; [reflexivity|]. constructor; [intros []|constructor].
+  - fold txt in Hgood. rewrite Heq.
+    apply Exists_exists in Hgood. destruct Hgood as [l [Hl [_ Hh]]].
+    apply in_split in Hl. destruct Hl as [a [b Hl]]. subst rest.
+    destruct (joinl_find a (src, s0) l b) as [before [after [H1 H2]]].
+    exists before, (fst l), after. split; [exact H1|]. split; [exact H2|]. split.
+    + rewrite Forall_forall in Hnl. apply (Hnl l). apply in_or_app. right. left. reflexivity.
+    + destruct Hh as [pre [post [Ht Hpre]]]. rewrite Ht. rewrite <- Hpre.
+      rewrite skipn_app. rewrite skipn_all, Nat.sub_diag. cbn [skipn app].
+      unfold len. rewrite firstn_app, firstn_all, Nat.sub_diag. cbn [firstn]. apply app_nil_r.
+Qed.
+
+Print Assumptions record_literals.
+Print Assumptions record_ident.
+Print Assumptions record_last.
+Print Assumptions record_if_unselected.
+Print Assumptions rec_all_spec.
+Print Assumptions transparent.
+Print Assumptions first_line.
+Print Assumptions every_value.
